@@ -4,7 +4,10 @@ From Coq Require Import List Bool Arith Lia.
 From YV Require Import TryLang TrySpec Handlers TryRun.
 Import ListNotations.
 
-Local Notation K := cfg_today.
+(* everything up to `End Generic` holds whichever raise sites set handling_exception before unwinding *)
+Section Generic.
+Variables ts vs ns : bool.
+Local Notation K := (cfg_assign ts vs ns).
 
 (* ------------------------------------------------------------------------------------------------ *)
 (* induction principle for the nested type *)
@@ -16,6 +19,7 @@ Section StmtInd.
   Hypothesis HPrintExc : Q PrintExc.
   Hypothesis HThrow : forall t, Q (Throw t).
   Hypothesis HFail : Q BuiltinFail.
+  Hypothesis HNFail : Q NativeFail.
   Hypothesis HTry : forall b c f, Q b -> (forall c1, c = Some c1 -> Q c1) -> (forall f1, f = Some f1 -> Q f1) -> Q (Try b c f).
   Hypothesis HLoop : forall n b, Q b -> Q (Loop n b).
   Hypothesis HIf : forall k s, Q s -> Q (IfIter k s).
@@ -32,6 +36,7 @@ Section StmtInd.
     | PrintExc => HPrintExc
     | Throw t => HThrow t
     | BuiltinFail => HFail
+    | NativeFail => HNFail
     | Try b c f =>
         HTry b c f (stmt_ind' b)
           (match c return forall c1, c = Some c1 -> Q c1 with
@@ -126,7 +131,10 @@ Section Steps.
       step K P ST = inl (mkS g (S pc) stk (fr :: frs) hs rp he (out ++ [v])).
     Proof. intros H H1; t H. now rewrite H1. Qed.
     Lemma step_IFail : fetch P g pc = Some IFail ->
-      step K P ST = unwind K (mkS g (S pc) (stk ++ [VNil; VErr]) (fr :: frs) hs rp he out).
+      step K P ST = unwind K (mkS g (S pc) (stk ++ [VNil; VErr]) (fr :: frs) hs rp (if vs then true else he) out).
+    Proof. intros H; t H. Qed.
+    Lemma step_INativeFail : fetch P g pc = Some INativeFail ->
+      step K P ST = unwind K (mkS g (S pc) (stk ++ [VValErr]) (fr :: frs) hs rp (if ns then true else he) out).
     Proof. intros H; t H. Qed.
     Lemma step_IConst t0 : fetch P g pc = Some (IConst t0) ->
       step K P ST = inl (mkS g (S pc) (stk ++ [VNum t0]) (fr :: frs) hs rp he out).
@@ -135,7 +143,7 @@ Section Steps.
       step K P ST = inl (mkS g (S pc) (stk ++ [VNil]) (fr :: frs) hs rp he out).
     Proof. intros H; t H. Qed.
     Lemma step_IThrow : fetch P g pc = Some IThrow ->
-      step K P ST = unwind K (mkS g (S pc) stk (fr :: frs) hs rp true out).
+      step K P ST = unwind K (mkS g (S pc) stk (fr :: frs) hs rp (if ts then true else he) out).
     Proof. intros H; t H. Qed.
     Lemma step_IPushNative : fetch P g pc = Some IPushNative ->
       step K P ST = inl (mkS g (S pc) (stk ++ [VNative]) (fr :: frs) hs rp he out).
@@ -215,7 +223,7 @@ Definition raise (hs : list handler) (v : val) (stk : list val) (frs : list fram
   | h :: hs' =>
       match skipn (length frs - h_frames h) frs with
       | [] => inr (FStuck, out)
-      | frs' => inl (mkS (h_fn h) (h_catch h) (firstn (h_height h) stk ++ [v]) frs' hs' rp (he_after K h) out)
+      | frs' => inl (mkS (h_fn h) (h_catch h) (firstn (h_height h) stk ++ [v]) frs' hs' rp (he_after K h false) out)
       end
   end.
 
@@ -294,11 +302,11 @@ Qed.
 (* sizes *)
 Lemma compile_length cx pc s : length (compile K cx pc s) = csize K cx s.
 Proof.
-  revert cx pc. induction s as [|a b IHa IHb|t| |t| |b c f IHb IHc IHf|n b IHb|k s IHs| | |t|g] using stmt_ind';
+  revert cx pc. induction s as [|a b IHa IHb|t| |t| | |b c f IHb IHc IHf|n b IHb|k s IHs| | |t|g] using stmt_ind';
     intros cx pc; unfold csize in *; cbn [compile size]; auto.
   - rewrite app_length, IHa, IHb. reflexivity.
   - (* Try *)
-    cbn [catch_emits_pop cfg_today app].
+    cbn [catch_emits_pop cfg_assign app].
     destruct c as [c1|], f as [f1|]; repeat (progress cbn [length app] || rewrite app_length).
     + rewrite IHb, (IHc c1 eq_refl), (IHf f1 eq_refl). unfold lshape; cbn. lia.
     + rewrite IHb, (IHc c1 eq_refl). unfold lshape; cbn. lia.
@@ -429,7 +437,7 @@ Section ClassFacts.
   Lemma no_ret s : forall k e o r, (exists c, k_ret k = RBad c) -> known_class_stmt p k s = None ->
     eval_stmt call e s = Some (o, r) -> is_ret r = false.
   Proof.
-    induction s as [|a b IHa IHb|t| |t| |b c f IHb IHc IHf|n b IHb|k0 s IHs| | |t|g] using stmt_ind';
+    induction s as [|a b IHa IHb|t| |t| | |b c f IHb IHc IHf|n b IHb|k0 s IHs| | |t|g] using stmt_ind';
       intros k e o r [cl Hk] Hc He; cbn [eval_stmt] in He; try (inversion He; reflexivity).
     - cbn [known_class_stmt] in Hc. apply orelse_none in Hc. destruct Hc as [Ha Hb].
       destruct (eval_stmt call e a) as [[o1 r1]|] eqn:Ea; [|discriminate].
@@ -468,7 +476,7 @@ Section ClassFacts.
     known_class_stmt p k s = None -> wf_stmt nf il ic s = true ->
     eval_stmt call e s = Some (o, r) -> is_brk r = false.
   Proof.
-    induction s as [|a b IHa IHb|t| |t| |b c f IHb IHc IHf|n b IHb|k0 s IHs| | |t|g] using stmt_ind';
+    induction s as [|a b IHa IHb|t| |t| | |b c f IHb IHc IHf|n b IHb|k0 s IHs| | |t|g] using stmt_ind';
       intros k il ic e o r Hk Hc Hw He; cbn [eval_stmt] in He; try (inversion He; reflexivity).
     - cbn [known_class_stmt] in Hc. apply orelse_none in Hc. destruct Hc as [Ha Hb].
       cbn [wf_stmt] in Hw. apply andb_prop in Hw. destruct Hw as [Hwa Hwb].
@@ -509,7 +517,7 @@ Section ClassFacts.
   (* a return that comes out of s is written in s *)
   Lemma ret_has_return s : forall e o r v, eval_stmt call e s = Some (o, r) -> r = ORet v -> has_return s = true.
   Proof.
-    induction s as [|a b IHa IHb|t| |t| |b c f IHb IHc IHf|n b IHb|k0 s IHs| | |t|g] using stmt_ind';
+    induction s as [|a b IHa IHb|t| |t| | |b c f IHb IHc IHf|n b IHb|k0 s IHs| | |t|g] using stmt_ind';
       intros e o r v He Hr; cbn [eval_stmt] in He; cbn [has_return]; auto; try (inversion He; subst; discriminate).
     - destruct (eval_stmt call e a) as [[o1 r1]|] eqn:Ea; [|discriminate].
       destruct r1; try (inversion He; subst; apply orb_true_iff; left; eapply IHa; eauto; fail).
@@ -534,7 +542,7 @@ Section ClassFacts.
   Lemma infin_tryfree s : forall k, k_infin k = true -> known_class_stmt p k s = None -> tryfree p nf s = true.
   Proof.
     unfold tryfree.
-    induction s as [|a b IHa IHb|t| |t| |b c f IHb IHc IHf|n b IHb|k0 s IHs| | |t|g] using stmt_ind';
+    induction s as [|a b IHa IHb|t| |t| | |b c f IHb IHc IHf|n b IHb|k0 s IHs| | |t|g] using stmt_ind';
       intros k Hk Hc; cbn [tryfree_with known_class_stmt] in *; auto.
     - apply orelse_none in Hc. destruct Hc. erewrite IHa, IHb; eauto.
     - rewrite Hk in Hc. discriminate.
@@ -547,7 +555,7 @@ Section ClassFacts.
   Lemma fin_nocatch_flat s : forall k, k_fin_nocatch k = true -> k_infin k = true -> (exists c, k_loop k = LBad c) ->
     known_class_stmt p k s = None -> flat s = true.
   Proof.
-    induction s as [|a b IHa IHb|t| |t| |b c f IHb IHc IHf|n b IHb|k0 s IHs| | |t|g] using stmt_ind';
+    induction s as [|a b IHa IHb|t| |t| | |b c f IHb IHc IHf|n b IHb|k0 s IHs| | |t|g] using stmt_ind';
       intros k Hk Hi [cl Hl] Hc; cbn [flat known_class_stmt] in *; auto.
     - apply orelse_none in Hc. destruct Hc. erewrite IHa, IHb; eauto.
     - rewrite Hi in Hc. discriminate.
@@ -565,7 +573,7 @@ Lemma no_exc_stmt callee call s :
   forall e o r, can_throw_with callee s = false -> eval_stmt call e s = Some (o, r) -> is_exc r = false.
 Proof.
   intros Hcall.
-  induction s as [|a b IHa IHb|t| |t| |b c f IHb IHc IHf|n b IHb|k0 s IHs| | |t|g] using stmt_ind';
+  induction s as [|a b IHa IHb|t| |t| | |b c f IHb IHc IHf|n b IHb|k0 s IHs| | |t|g] using stmt_ind';
     intros e o r Hc He; cbn [eval_stmt] in He; cbn [can_throw_with] in Hc; try discriminate;
     try (inversion He; reflexivity).
   - apply orb_false_iff in Hc. destruct Hc as [Ha Hb].
@@ -814,6 +822,15 @@ Section Sim.
       - cbn [post]. rewrite app_nil_r. eapply raise_ext_stack; [exact Hh|lia].
     Qed.
 
+    Lemma sim_nativefail : Sim f' NativeFail.
+    Proof.
+      intro_sim. cbn [eval_stmt] in He. inversion He; subst. cbn [compile] in Hcode.
+      eexists; split.
+      - eapply steps_one. rewrite step_INativeFail by (eapply code_at_fetch0; eauto).
+        eapply unwind_raise; [exact Hh|lia].
+      - cbn [post]. now rewrite app_nil_r.
+    Qed.
+
     Lemma sim_seq a b : Sim f' a -> Sim f' b -> Sim f' (Seq a b).
     Proof.
       intros IHa IHb. intro_sim. cbn [compile] in Hcode. apply code_at_app in Hcode. destruct Hcode as [Hca Hcb].
@@ -886,7 +903,7 @@ Section Sim.
               (inl (mkS g (pc + length (exits K c L)) (firstn (f_base fr + l_nloc L) stk) (fr :: frs)
                         (skipn (c_try c - l_try L) hs) rp he out)).
     Proof.
-      intros Hc Hl H1 H2. unfold exits in *. cbn [break_pops_handlers cfg_today] in *.
+      intros Hc Hl H1 H2. unfold exits in *. cbn [break_pops_handlers cfg_assign] in *.
       apply code_at_app in Hc. destruct Hc as [Ha Hb]. rewrite repeat_length in Hb.
       rewrite app_length, !repeat_length.
       eapply steps_trans; [eapply run_pop_handlers; [discriminate|exact Ha]|].
@@ -920,7 +937,7 @@ Section Sim.
 
     Lemma sim_return t : Sim f' (Return t).
     Proof.
-      intro_sim. cbn [eval_stmt] in He. inversion He; subst. cbn [compile return_uses_jump_finally cfg_today] in Hcode.
+      intro_sim. cbn [eval_stmt] in He. inversion He; subst. cbn [compile return_uses_jump_finally cfg_assign] in Hcode.
       cbn [known_class_stmt] in Hkc. unfold compat_ret in Hcr.
       pose proof (code_at_fetch0 _ _ _ _ Hcode) as F0. apply code_at_tail in Hcode.
       destruct frs as [|fr2 frs]; [congruence|].
@@ -1090,7 +1107,7 @@ Section Sim.
       set (fpc := cpc + ncatch).
       set (sz := csize K c (Try b c0 f)).
       assert (Hsz : sz = 3 + nb + ncatch + match f with Some f1 => csize K c f1 + 1 | None => 0 end).
-      { unfold sz, ncatch, nb, csize, lshape, cb, cc. cbn [size catch_emits_pop cfg_today c_loop c_nloc c_try c_intry]. destruct c0, f; lia. }
+      { unfold sz, ncatch, nb, csize, lshape, cb, cc. cbn [size catch_emits_pop cfg_assign c_loop c_nloc c_try c_intry]. destruct c0, f; lia. }
       (* where everything is *)
       assert (CODE : fetch P g pc0 = Some (IPushExcHandler cpc fpc) /\
                      code_at (nth g P []) (pc0 + 1) (compile K cb (pc0 + 1) b) /\
@@ -1100,7 +1117,7 @@ Section Sim.
                                                  fetch P g (cpc + csize K cc c1) = Some IPop) /\
                      (forall f1, f = Some f1 -> code_at (nth g P []) fpc (compile K c fpc f1) /\
                                                  fetch P g (fpc + csize K c f1) = Some IEndFinally)).
-      { cbn [compile catch_emits_pop cfg_today] in Hcode. fold cb cc nb cpc in Hcode.
+      { cbn [compile catch_emits_pop cfg_assign] in Hcode. fold cb cc nb cpc in Hcode.
         apply code_at_app in Hcode. destruct Hcode as [H0 Hcode]. cbn [length] in Hcode.
         apply code_at_app in Hcode. destruct Hcode as [H1 Hcode]. rewrite compile_length in Hcode. fold nb in Hcode.
         apply code_at_app in Hcode. destruct Hcode as [H2 Hcode]. cbn [length] in Hcode.
@@ -1235,7 +1252,7 @@ Section Sim.
           inversion X; subst v0. clear X.
           destruct (Hcc c1 eq_refl) as [Hcc1 Fp]. destruct (Hkc1 c1 eq_refl) as [Hkc Hct].
           assert (Hne : cpc =? fpc = false) by (apply Nat.eqb_neq; unfold fpc, ncatch; lia).
-          unfold he_after in S0. cbn [he_is_no_catch cfg_today h_catch h_fin H0] in S0. rewrite Hne in S0.
+          unfold he_after in S0. cbn [unwind_he cfg_assign h_catch h_fin H0] in S0. rewrite Hne in S0.
           assert (Hrc' : rel_catch cc {| e_exc := v; e_iter := e_iter e |} (f_base fr) (stk ++ [v]) true).
           { intros _. cbn. split; [lia|]. rewrite Hlen. apply nth_error_snoc_exact. }
           assert (Hrl' : rel_loop cc (kc_of k (is_some f)) {| e_exc := v; e_iter := e_iter e |} (f_base fr) (stk ++ [v]) il).
@@ -1296,7 +1313,7 @@ Section Sim.
           destruct f as [f1|]; [|discriminate].
           destruct HF as [(X & _)|(f1' & o3 & r3 & X & Ef & -> & ->)]; [discriminate|]. inversion X; subst f1'. clear X.
           assert (Heq : cpc =? fpc = true) by (apply Nat.eqb_eq; unfold fpc, ncatch; lia).
-          unfold he_after in S0. cbn [he_is_no_catch cfg_today h_catch h_fin H0] in S0. rewrite Heq in S0.
+          unfold he_after in S0. cbn [unwind_he cfg_assign h_catch h_fin H0] in S0. rewrite Heq in S0.
           assert (cpc = fpc) by (unfold fpc, ncatch; lia).
           destruct (Hkf1 f1 eq_refl) as [Hkf _]. destruct (Hcf f1 eq_refl) as [Hcf1 Fe].
           assert (Hflat : flat f1 = true) by (eapply (fin_nocatch_flat p f1 (kf_of k false)); [reflexivity|reflexivity|cbn; eauto|exact Hkf]).
@@ -1330,7 +1347,7 @@ Section Sim.
     Proof.
       induction s using stmt_ind'.
       - apply sim_skip. - apply sim_seq; auto. - apply sim_print. - apply sim_printexc. - apply sim_throw.
-      - apply sim_fail. - apply sim_try; auto. - apply sim_loop; auto. - apply sim_ifiter; auto.
+      - apply sim_fail. - apply sim_nativefail. - apply sim_try; auto. - apply sim_loop; auto. - apply sim_ifiter; auto.
       - apply sim_break. - apply sim_continue. - apply sim_return. - apply sim_call.
     Qed.
 
@@ -1421,7 +1438,7 @@ End Sim.
 (* headline *)
 Theorem handlers_refine_spec : forall p fuel res,
   wf_prog p = true -> in_known_class p = None -> fuel <= 63 ->
-  eval_spec p fuel = Some res -> exists n, run_m cfg_today p n = Some res.
+  eval_spec p fuel = Some res -> exists n, run_m K p n = Some res.
 Proof. intros p fuel res Hw Hc Hf He. eapply refine_run; eauto. Qed.
 Print Assumptions handlers_refine_spec.
 
@@ -1597,6 +1614,8 @@ Print Assumptions finally_exactly_once.
 Print Assumptions outcome_continues.
 Print Assumptions catch_does_not_disable_outer.
 
+End Generic.
+
 (* ------------------------------------------------------------------------------------------------ *)
 (* the hypotheses are satisfiable: a program with two handlers active at the throw, a finally block run on the
    exceptional path, a loop left by break out of a try block, a return through a finally block *)
@@ -1655,13 +1674,19 @@ Lemma catch_pops_outer_refuted_old : refutes cfg_old_catch_pops wit_catch_pops_o
 Proof. refute. Qed.
 Lemma break_in_try_refuted_old : refutes cfg_old_break wit_break_in_try None.
 Proof. refute. Qed.
+(* a refactoring that stops deriving the flag in unwind_stack must set it at EVERY raise site: with the native site
+   left out, a native failure whose innermost handler is finally-only is dropped by EndFinally *)
+Definition wit_native_finally := "6 0 1 13 2 1;6 1 0 12 0 3".
+Lemma native_site_needs_flag_refuted : refutes cfg_flag_at_sites_but_native wit_native_finally None.
+Proof. refute. Qed.
 Lemma repaired_today :
   eval_spec (parse_prog wit_catch_pops_outer) 20 = run_m cfg_today (parse_prog wit_catch_pops_outer) 2000 /\
-  eval_spec (parse_prog wit_break_in_try) 20 = run_m cfg_today (parse_prog wit_break_in_try) 2000.
-Proof. vm_compute. split; reflexivity. Qed.
+  eval_spec (parse_prog wit_break_in_try) 20 = run_m cfg_today (parse_prog wit_break_in_try) 2000 /\
+  eval_spec (parse_prog wit_native_finally) 20 = run_m cfg_today (parse_prog wit_native_finally) 2000.
+Proof. vm_compute. repeat split; reflexivity. Qed.
 
 (* the headline for any configuration that equals today's (props/C08.v instantiates it with the regenerated one) *)
-Theorem handlers_refine_spec_cfg : forall K0, K0 = cfg_today -> forall p fuel res,
+Theorem handlers_refine_spec_cfg : forall K0 ts vs ns, K0 = cfg_assign ts vs ns -> forall p fuel res,
   wf_prog p = true -> in_known_class p = None -> fuel <= 63 ->
   eval_spec p fuel = Some res -> exists n, run_m K0 p n = Some res.
-Proof. intros K0 ->. exact handlers_refine_spec. Qed.
+Proof. intros K0 ts vs ns ->. exact (handlers_refine_spec ts vs ns). Qed.
